@@ -403,7 +403,8 @@ def generic_history(exe, rng, idx, emph, cfg=None):
                 elif sub == 1:
                     pkt = h.make_reply(ent, secret=R.rand_secret(rng))
                 elif sub == 2:
-                    pkt = h.make_reply(ent, code=rng.choice([1, 4, 12, 42, 0, 255]))
+                    # (not a response code - also codes that look like one when only some of their bits are looked at)
+                    pkt = h.make_reply(ent, code=rng.choice([1, 4, 12, 42, 0, 255, 34, 35, 37, 43, 66, 67, 69, 75, 130, 131, 133, 139]))
                 elif sub == 3:
                     b = bytearray(pkt)
                     b[1] = rng.randrange(256)
@@ -472,6 +473,24 @@ def rewrite_history(exe, rng, idx):
                 attrs.append(a)
         h.send("rewrite rw%d %s" % (rng.randrange(3), " ".join("%d:%s" % (t, R.hexs(v)) for t, v in attrs)))
         h.tag("forwarded")
+    # a Vendor-Specific attribute with SEVERAL sub-attributes that a modifyVendorAttribute rule makes longer, filled so that each
+    # growth alone still fits into the 253 octets of the attribute and all of them together do not
+    for bi, blk in enumerate(cfg.rewrites):
+        for (ve, st, pat, repl) in (blk.modv or [])[:1]:
+            for total in (253, 252, 250, 247, 244):
+                if h.s.dead:
+                    break
+                nsub = 2 + (total + bi) % 2
+                subs, left = [], total - 4
+                for j in range(nsub):
+                    n = (left // (nsub - j)) - 2
+                    # values the pool's expressions match: 'a…a@local', all 'a', or something with an '@' in it
+                    v = {0: b"a" * max(0, n - 6) + b"@local", 1: b"a" * n, 2: b"@" + b"b" * max(0, n - 1)}[(j + total) % 3][:max(0, n)]
+                    subs.append((st, v))
+                    left -= 2 + len(v)
+                body = ve.to_bytes(4, "big") + b"".join(bytes([t, len(v) + 2]) + v for t, v in subs)
+                h.send("rewrite rw%d 26:%s 1:%s" % (bi, R.hexs(body[:253]), R.hexs(b"u@x")))
+                h.tag("vsa-near-limit")
     return h.finish(kind="rewrite")
 
 
@@ -522,6 +541,8 @@ def tcp_history(exe, rng, idx):
             elif r < 0.18:
                 p = p[:2] + bytes([0, rng.choice([0, 5, 19])]) + p[4:]     # impossible length field
             pkts.append(p)
+            if (p[1] + len(pkts)) % 4 == 0:
+                pkts.append(p)      # … and once more, octet for octet: a retransmission on the same connection (answered from the cache)
         stream = b"".join(pkts)
         cuts = sorted(set(rng.randrange(1, len(stream)) for _ in range(rng.randrange(0, 4)))) if len(stream) > 1 else []
         segs = [stream[a:b] for a, b in zip([0] + cuts, cuts + [len(stream)])]
@@ -709,7 +730,7 @@ def srvconn_history(exe, rng, idx):
                     elif sub == 1:
                         p = h.make_reply(ent, secret=R.rand_secret(rng))
                     elif sub == 2:
-                        p = h.make_reply(ent, code=rng.choice([1, 4, 12, 42, 0]))
+                        p = h.make_reply(ent, code=rng.choice([1, 4, 12, 42, 0, 34, 35, 37, 43, 66, 130, 139]))
                     elif sub == 3:
                         b = bytearray(p)
                         b[1] = rng.randrange(256)                                # another slot's identifier
